@@ -219,6 +219,9 @@ def _judge(ctx, oa, b, cfg, tr, bi, site, fams):
                 return 'table', ('parser', 'Matrix-index_mut', 'row-from-enumerate'), ''
         return 'violation', 'matrix-index', 'matrix index is not a constant pair within 3x3'
     if 'Index<I>>::index' in n or 'IndexMut<I>>::index_mut' in n:
+        r = _expect_of_uniform_index(b, tr, t, direct=True)
+        if r:
+            return 'discharged', 'index(uniform-index)', r
         idx = tr.origin(t['args'][1])
         if idx['o'] == 'const' and b.file.endswith('to_svg.rs'):
             return 'table', ('svg', 'Vec-index', 'corners-or-items-constant-index'), ''
@@ -482,10 +485,13 @@ def _panic_guard(oa, b, cfg, tr, bi):
     return None
 
 
-def _expect_of_uniform_index(b, tr, t):
-    o = tr.origin(t['args'][0])
-    if o['o'] != 'call' or not call_matches(o['term'], '<impl [T]>::get', '<impl [T]>::get_mut'):
-        return None
+def _expect_of_uniform_index(b, tr, t, direct=False):
+    if direct:
+        o = {'o': 'call', 'term': t}
+    else:
+        o = tr.origin(t['args'][0])
+        if o['o'] != 'call' or not call_matches(o['term'], '<impl [T]>::get', '<impl [T]>::get_mut'):
+            return None
     cont = container_root(b, tr, o['term']['args'][0])
     idx = tr.origin(o['term']['args'][1])
     if idx['o'] != 'call' or not call_matches(idx['term'], 'Distribution<X>>::sample', 'Distribution::sample'):
